@@ -126,7 +126,7 @@ func genIndex(t *Tracer, m *Meta, tier string, seed int64) {
 	}
 	budgetU := 1500
 	if !quick {
-		budgetU = 30000
+		budgetU = 16000
 	}
 	for ui, u := range universes {
 		strs := u.Strings()
